@@ -241,7 +241,7 @@ def add_concurrent(ck, tier, seed, oracles=None, n_quick=120, n_thorough=3000, f
     steps = 0
     tasks = [{"seed": seed, "i": i, "follow": follow} for i in range(n)]
     # directed part: one preemption of process 0 at each of its first 70 steps, for the scenarios where a window matters
-    ns = max(1, n // 40)
+    ns = min(12, max(1, n // 40))
     tasks += [{"seed": seed, "i": 100000 + j, "follow": follow, "scenario": sc, "nproc": 2, "preempt_sweep": 70}
               for j in range(ns) for sc in ("self-containing", "collision", "first-use")]
     for r in run_tasks(par_task, tasks):
